@@ -136,6 +136,8 @@ def judge_case(ctx, res):
             if r["version_name"] != schema:
                 ctx.violation(f"version-name-wrong {fam}", f"{schema}: version_name() after load = {r['version_name']!r}", wit)
             before, after = r["before"], r["after"]
+            from ..framework import held_handles
+            held_handles(ctx, before, fam, schema, wit, " (before a reopen)")
             ctx.state("distinct_library_states_reopened", {"db": before.get("db"), "crates": before.get("crates"), "tracks": before.get("tracks")})
             hb = {h: x for h, x in (before.get("track_handles") or {}).items() if x.get("valid") is True}
             ha = after.get("track_handles") or {}
